@@ -367,8 +367,9 @@ fn main() {
     for ((i, stage), list) in &fails {
         let case = &cases[*i];
         let cfgs: Vec<String> = list.iter().map(|l| l.0.clone()).collect();
-        let cfg_key = if cfgs.len() == tried[i] { "all".to_string() } else { cfgs.join(",") };
-        let key = format!("{}:{}:{}", case.id, stage, cfg_key);
+        // key = world + failing stage; the failing configurations are in `what` / the replay detail
+        let _ = &tried;
+        let key = format!("{}:{}", case.id, stage);
         run.violation(
             &key,
             &format!("world {} fails at stage `{stage}` under [{}]: {}", case.id, cfgs.join(", "), first_error(&list[0].1)),
